@@ -98,6 +98,9 @@ func (l *Location) Doc() *CRLSpec {
 		c.AutoAlg = true
 	case "critext":
 		c.CritUnknown = true
+		if c.Version == 1 || c.NoExts {
+			c.Version, c.NoExts = 2, false // an unknown critical extension needs a list that can carry extensions
+		}
 	case "alg-pss":
 		c.Alg, c.AutoAlg = RSAPSSSHA256, false
 	case "alg-ed25519":
@@ -170,6 +173,11 @@ type LocOpts struct {
 	AutoAlg  bool
 	AKI      int
 	Base     uint32 // distinguishes serial spaces of different locations
+	// version metadata a refresh must not key on: successive issues may share thisUpdate/nextUpdate (two issues within
+	// one second), may carry no cRLNumber at all (v1, or v2 without crlExtensions), or a constant one
+	SameTimes  bool
+	NoNumber   int // 0: numbered; 1: v2 without crlExtensions; 2: v1
+	SameNumber bool
 }
 
 // NewLocation plans NVers versions of a CRL. Version k lists: common, onlyV[k], fillers; later
@@ -178,6 +186,9 @@ func (w *World) NewLocation(o LocOpts) *Location {
 	l := &Location{w: w, Name: o.Name, URL: o.URL, Issuer: o.Issuer, State: oGood}
 	if o.Width == 0 {
 		o.Width = 8
+	}
+	if o.NoNumber == 2 {
+		o.EntryExt = false // a v1 list has no extensions of any kind
 	}
 	if o.Width == 1 && o.Extra > 20 {
 		o.Extra = 20
@@ -205,6 +216,18 @@ func (w *World) NewLocation(o LocOpts) *Location {
 		spec := &CRLSpec{Name: fmt.Sprintf("%s.v%d", o.Name, k+1), Issuer: o.Issuer, Alg: o.Alg, AutoAlg: o.AutoAlg || o.Alg == 0 && isRSAKey(o.Issuer),
 			ThisUpdate: epoch.Add(time.Duration(k) * time.Hour), NextUpdate: epoch.Add(time.Duration(k)*time.Hour + 7*24*time.Hour),
 			Number: int64(k + 1), AKI: o.AKI, PEM: o.PEM, CRLF: o.CRLF}
+		if o.SameTimes {
+			spec.ThisUpdate, spec.NextUpdate = epoch, epoch.Add(7*24*time.Hour)
+		}
+		if o.SameNumber {
+			spec.Number = 1
+		}
+		switch o.NoNumber {
+		case 1:
+			spec.NoExts = true
+		case 2:
+			spec.Version = 1
+		}
 		add := func(s *big.Int) {
 			e := CRLEntrySpec{Serial: s, Date: epoch.Add(-time.Hour)}
 			if o.EntryExt {
